@@ -136,6 +136,18 @@ def group_scenarios(rng, tier):
                     perms = perms[:5]
                 out.append({"kind": kind, "names": ["d", "c", "b", "a"], "perms": perms,
                             "bound": bound, "opts": {"group_imports": gi}})
+    # a comment at the end of the line of ONE element: it is attached to that element and moves
+    # with it
+    for kind in ("use", "mod", "extern"):
+        names = ["d", "c", "b", "a"]
+        allp = [p for p in itertools.permutations(range(4))]
+        last = [p for p in allp if p[-1] == 2]
+        rest = [p for p in allp if p[-1] != 2]
+        if tier == "quick":
+            rng.shuffle(last)
+            rng.shuffle(rest)
+            last, rest = last[:3], rest[:6]
+        out.append({"kind": kind, "names": names, "perms": last + rest, "bound": None, "trail": 2})
     # large groups with ties (alias twins and attribute twins), several shuffles
     for size in ((24, 33) if tier == "quick" else (21, 24, 27, 33, 41, 64)):
         names = [f"p{k:02d}::q" for k in range(size - 4)]
@@ -186,6 +198,9 @@ def tie_class(kind, name):
     return re.sub(r"\s+as\s+\w+$", "", name) if kind == "use" else name
 
 
+TRAIL = " // about this one"
+
+
 def render_group(scn, perm):
     kind, names, bound = scn["kind"], scn["names"], scn["bound"]
     n = len(names)
@@ -202,6 +217,8 @@ def render_group(scn, perm):
                           "skip": "#[rustfmt::skip]\nuse   zz_skipped::{b,a};"}[bound])
         att = "attr" if (hash(nm) % 5 == 0 and kind == "use" and " as " not in nm) else None
         lines.append(decl(kind, nm, att))
+        if scn.get("trail") is not None and nm == names[scn["trail"]]:
+            lines[-1] += TRAIL
     return "\n".join(lines) + "\n"
 
 
@@ -292,14 +309,19 @@ def run(tier, seed, replay=None):
                 olines = out.split("\n")
                 for i, nm in enumerate(nms):
                     want = decl(kind, nm).split("\n")[-1]
-                    hits = [k for k, ln in enumerate(olines) if ln.strip() == want]
+                    trailed = scn.get("trail") == i
+                    hits = [k for k, ln in enumerate(olines)
+                            if ln.strip() == want or (trailed and ln.strip() == want + TRAIL)]
+                    if trailed and (len(hits) != 1 or olines[hits[0]].strip() != want + TRAIL
+                                    or out.count(TRAIL.strip()) != 1):
+                        attach_ok = False      # the comment is not on its element's line
                     if len(hits) != 1:
                         pos.append((10 ** 6 + i, i))
                         attach_ok = False
                         continue
                     pos.append((hits[0], i))
                     src_att = [ln for ln in j["src"].split("\n")]
-                    si_ = src_att.index(want)
+                    si_ = src_att.index(want + TRAIL if trailed else want)
                     if si_ > 0 and src_att[si_ - 1].startswith("#[cfg("):
                         if hits[0] == 0 or olines[hits[0] - 1].strip() != src_att[si_ - 1]:
                             attach_ok = False
@@ -321,7 +343,17 @@ def run(tier, seed, replay=None):
                         bounds_ok = False
                 perms.append({"inp": inp_order, "out": out_order, "attach_ok": attach_ok,
                               "bounds_ok": bounds_ok, "group": group})
-            if scn["bound"]:
+            if scn.get("trail") is not None:
+                # the element that is LAST in the input is a case of its own (a recorded defect
+                # of the pinned tree: its comment stays at the end of the group)
+                for cls, sel in (("trail-last", [p for p in perms if p["inp"][-1] == scn["trail"] + 1]),
+                                 ("trail", [p for p in perms if p["inp"][-1] != scn["trail"] + 1])):
+                    if sel:
+                        grecs.append({"n": n, "tie": tie, "group": [1] * n,
+                                      "perms": [{k: p[k] for k in ("inp", "out", "attach_ok",
+                                                                   "bounds_ok")} for p in sel]})
+                        gmeta.append((si, se, cls))
+            elif scn["bound"]:
                 # group membership depends on the input order: one record per permutation
                 for p in perms:
                     grecs.append({"n": n, "tie": tie, "group": p["group"],
@@ -368,10 +400,11 @@ def run(tier, seed, replay=None):
                             f"(style_edition {se}): outputs {outs}",
                             {"base": LIST_BASES[bi], "outputs": outs, "record": grecs[idx]})
                 continue
-            si, se = gmeta[idx]
+            si, se = gmeta[idx][:2]
             scn = scen[si]
+            cls = gmeta[idx][2] if len(gmeta[idx]) > 2 else scn["bound"]
             v.violation(f"reorder:{','.join(sorted(f['fails']))}:{scn['kind']}:n={len(scn['names'])}:"
-                        f"bound={scn['bound']}:se={se}:{scn['names'][:6]}",
+                        f"bound={cls}:se={se}:{scn['names'][:6]}",
                         f"{f['fails']} for a group of {len(scn['names'])} `{scn['kind']}` declarations "
                         f"(style_edition {se}, boundary {scn['bound']})",
                         {"names": scn["names"], "record": grecs[idx]})
